@@ -273,6 +273,36 @@ def run(ctx):
             except Exception as ex:
                 bad = bad or {'raised': 'squeeze of a zero-charge singleton: %s' % ex}
         record('expand_dims/squeeze', xd, bad, axis=ax)
+        # ---- squeeze with NO axis argument: exactly the axes of total size one go (numpy.squeeze of the dense array)
+        try:
+            for nm, f in (('squeeze()', lambda a: a.squeeze()), ('sr.squeeze(x)', lambda a: sr.squeeze(a)), ('ar.do(squeeze)', lambda a: ar.do('squeeze', a))):
+                ctx.count()
+                try:
+                    q = f(x)
+                except Exception as ex:
+                    # only a charged size-one axis may refuse to go (characterised by squeeze_none)
+                    if not any(ix.size_total == 1 for ix in x.indices):
+                        record('squeeze (no axis)', xd, {'raised': '%s: %s: %s' % (nm, type(ex).__name__, ex)})
+                    continue
+                want = np.squeeze(dx)
+                got = gen.densify(q) if hasattr(q, 'blocks') else np.asarray(q)
+                if got.shape != want.shape or not np.array_equal(got, want):
+                    record('squeeze (no axis)', xd, {'error': '%s: shape %r, numpy.squeeze of the dense array has shape %r' % (nm, got.shape, want.shape)})
+            if any(len(ix.chargemap) == 1 and ix.size_total > 1 for ix in x.indices):
+                ctx.nontrivial(('squeeze-none', sym, str([sorted(ix.chargemap.items()) for ix in x.indices])))
+        except Exception as ex:
+            raised['squeeze_none'] = raised.get('squeeze_none', 0) + 1
+        # ---- in-place scaling of a COPY (and of a sum that keeps operand blocks by reference): value of the result, and the
+        #      values of the arrays it was made from afterwards
+        try:
+            ctx.count(2)
+            z = x.copy(); z *= 3
+            bad2 = dense_cmp(z, 3 * dx) or dense_cmp(x, dx)
+            z = x.copy(); z /= 2
+            bad2 = bad2 or dense_cmp(z, dx / 2) or dense_cmp(x, dx)
+            record('scalar *= / /= on a copy', xd, bad2 and {**bad2, 'note': 'result, or the array the copy was taken from, has the wrong value afterwards'})
+        except Exception as ex:
+            raised['iscale'] = raised.get('iscale', 0) + 1
         if k < 2:
             ctx.sample({'symmetry': sym, 'x': describe(x), 'perm': perm, 'axis': axis})
 
@@ -501,6 +531,24 @@ def _rp_array_op(op):
                         bad = bad or {'error': 'sr.squeeze differs from method'}
                 except Exception as ex:
                     bad = bad or {'raised': 'squeeze of a zero-charge singleton: %s' % ex}
+        elif op == 'squeeze (no axis)':
+            bad = None
+            for nm, f2 in (('squeeze()', lambda a: a.squeeze()), ('sr.squeeze(x)', lambda a: sr.squeeze(a)), ('ar.do(squeeze)', lambda a: ar.do('squeeze', a))):
+                try:
+                    q = f2(x)
+                except Exception as ex:
+                    if not any(ix.size_total == 1 for ix in x.indices):
+                        bad = bad or {'raised': '%s: %s: %s' % (nm, type(ex).__name__, ex)}
+                    continue
+                want = np.squeeze(dx)
+                got = gen.densify(q) if hasattr(q, 'blocks') else np.asarray(q)
+                if got.shape != want.shape or not np.array_equal(got, want):
+                    bad = bad or {'error': '%s: shape %r, numpy.squeeze of the dense array has shape %r' % (nm, got.shape, want.shape)}
+        elif op == 'scalar *= / /= on a copy':
+            z = x.copy(); z *= 3
+            bad = _dense_cmp(z, 3 * dx) or _dense_cmp(x, dx)
+            z = x.copy(); z /= 2
+            bad = bad or _dense_cmp(z, dx / 2) or _dense_cmp(x, dx)
         else:
             return [{'what': 'unknown operation %r in the replay file' % op}]
         extra = {k: v for k, v in pr.items() if k != 'symmetry'}
@@ -572,7 +620,8 @@ def _rp_vec_log(sr, ins, pr, r):
 
 
 ORACLES = {op: _rp_array_op(op) for op in ('transpose', 'conj', 'dagger', 'scale', 'rscale', 'neg', 'div', 'add', 'sub', 'mul', 'iadd', 'imul',
-                                           'sum', 'norm', 'sum/norm', 'multiply_diagonal', 'expand_dims/squeeze')}
+                                           'sum', 'norm', 'sum/norm', 'multiply_diagonal', 'expand_dims/squeeze', 'squeeze (no axis)',
+                                           'scalar *= / /= on a copy')}
 ORACLES.update({'vec_arith': _rp_vec_arith, 'vec_fn': _rp_vec_fn, 'vec_reduce': _rp_vec_reduce, 'vec_log': _rp_vec_log})
 
 
